@@ -532,7 +532,8 @@ def reserve_shape(ctx, RM, o):
     # the loop(s) that update the pools, wherever they live (helpers are inlined in the supergraph); the iterated mapping is resolved
     # through the chain of frames to the expression of reserve_resources itself
     def _writes(x):
-        return (isinstance(x, ast.Subscript) and is_self_attr(x.value, '_resources') and isinstance(x.ctx, ast.Store))
+        return (isinstance(x, ast.Subscript) and is_self_attr(x.value, '_resources') and isinstance(x.ctx, ast.Store)) or \
+               (isinstance(x, ast.Call) and isinstance(x.func, ast.Attribute) and is_self_attr(x.func) and inv.method_writes(P, RM, x.func.attr, '_resources'))
     iters = []
     for n_ in g.nodes.values():
         if n_.kind == 'for' and any(_writes(x) for x in ast.walk(n_.ast)):
@@ -549,7 +550,7 @@ def reserve_shape(ctx, RM, o):
                     nm_, env_ = r_[0], r_[1]
                 txt = f'{nm_.id}.items()'
             iters.append(txt)
-    okl = len(iters) == 1 and iters[0] == f'{tested}.items()'
+    okl = len(set(iters)) == 1 and iters[0] == f'{tested}.items()'
     if not okl:
         o.fail(P, 'ResourceManager.reserve_resources', loops[0].iter if loops else 'for resource_name, amount in filtered_request.items()',
                'the pools must be updated for exactly the entries that were tested', file=RM.mod.path, line=fn.lineno)
